@@ -418,6 +418,9 @@ pub struct XlsbBook {
     /// extra records `(id, payload)` written in styles.bin between BrtEndFmts and BrtBeginCellXFs (where Excel puts
     /// fonts, fills, borders and the cell style XFs), framed by the book's framing
     pub styles_pre: Vec<(u16, Vec<u8>)>,
+    /// complete bytes of parts by zip name (e.g. "xl/workbook.bin"): replaces the generated part of that name, or
+    /// adds the part (malformed-part tests)
+    pub raw_parts: Vec<(String, Vec<u8>)>,
 }
 
 impl Default for XlsbBook {
@@ -443,6 +446,7 @@ impl XlsbBook {
             extra_parts: vec![],
             workbook_pre: vec![],
             styles_pre: vec![],
+            raw_parts: vec![],
         }
     }
     pub fn sheet_path(&self, i: usize) -> String {
@@ -594,6 +598,12 @@ impl XlsbBook {
         }
         for (n, b) in &self.extra_parts {
             v.push((n.clone(), b.clone()));
+        }
+        for (n, b) in &self.raw_parts {
+            match v.iter_mut().find(|(name, _)| name == n) {
+                Some(e) => e.1 = b.clone(),
+                None => v.push((n.clone(), b.clone())),
+            }
         }
         v
     }
